@@ -118,6 +118,56 @@ Proof.
   rewrite E1. cbv iota zeta. rewrite E1, E2. cbn [orb]. rewrite Nat2Z.id. rewrite (nth_error_nth' l d H). reflexivity.
 Qed.
 
+Lemma eval_index_tuple a i s s1 s2 l z :
+  eval s a = Ok (s1, PTuple l) -> eval s1 i = Ok (s2, PV (VInt z)) ->
+  eval s (XIndex a i) = bind (index_at l z) (fun x => Ok (s2, x)).
+Proof. intros H1 H2. cbn [PyMini.eval]. rewrite H1. cbn [bind]. rewrite H2. reflexivity. Qed.
+
+(* [elt for x in it if c] *)
+Fixpoint comp_res (f : pv -> res (option pv)) (l : list pv) : res (list pv) :=
+  match l with
+  | [] => Ok []
+  | v :: t => bind (f v) (fun o => bind (comp_res f t) (fun rs => Ok (match o with Some r => r :: rs | None => rs end)))
+  end.
+
+Definition comp_item (elt c : expr) (x : string) (s1 : st) (v : pv) : res (option pv) :=
+  let sx := write s1 (TName x) v in
+  bind (bind (eval sx c) (fun p => pv_truthy (snd p)))
+       (fun keep => if keep : bool then bind (eval sx elt) (fun p => Ok (Some (snd p))) else Ok None).
+
+Lemma eval_listcomp_cond elt x it c s s1 l :
+  eval s it = Ok (s1, PList l) ->
+  eval s (XListComp elt x it (Some c)) = bind (comp_res (comp_item elt c x s1) l) (fun vs => Ok (s1, PList vs)).
+Proof.
+  intros H. cbn [PyMini.eval]. rewrite H. cbn [bind].
+  match goal with |- bind ?a _ = bind ?b _ => assert (E : a = b) end.
+  { clear H. induction l as [|v t IH]; [reflexivity|]. cbn [comp_res]. unfold comp_item at 1.
+    destruct (eval (write s1 (TName x) v) c) as [[s2 cv]| |]; cbn [bind snd]; try reflexivity.
+    destruct (pv_truthy cv) as [[|]| |]; cbn [bind]; try reflexivity.
+    - destruct (eval (write s1 (TName x) v) elt) as [[s3 r]| |]; cbn [bind snd]; try reflexivity.
+      rewrite IH. reflexivity.
+    - rewrite IH. destruct (comp_res (comp_item elt c x s1) t); reflexivity. }
+  rewrite E. reflexivity.
+Qed.
+
+Lemma comp_res_filter {A} (h : A -> pv) (f : pv -> res (option pv)) (p : A -> bool) (g : A -> pv) l :
+  (forall a, In a l -> f (h a) = Ok (if p a then Some (g a) else None)) ->
+  comp_res f (map h l) = Ok (map g (filter p l)).
+Proof.
+  induction l as [|a t IH]; intros H; [reflexivity|].
+  cbn [map comp_res filter]. rewrite (H a (or_introl eq_refl)). cbn [bind].
+  rewrite IH by (intros b Hb; apply H; right; exact Hb). cbn [bind].
+  destruct (p a); reflexivity.
+Qed.
+
+Lemma map_res_map_ok' {A B C} (h : A -> B) (f : B -> res C) (g : A -> C) l :
+  (forall a, In a l -> f (h a) = Ok (g a)) -> map_res f (map h l) = Ok (map g l).
+Proof.
+  induction l as [|a t IH]; intros H; [reflexivity|].
+  cbn [map map_res]. rewrite (H a (or_introl eq_refl)). cbn [bind].
+  rewrite IH by (intros b Hb; apply H; right; exact Hb). reflexivity.
+Qed.
+
 End L2.
 
 Lemma lookup_update_other x y v e : x <> y -> lookup x (update y v e) = lookup x e.
